@@ -130,6 +130,205 @@ example : (runSer St.init (exOps.take 6)).inflight = [] ∧
     (runSer St.init (exOps.take 6)).pending 0 = some ⟨exMeta 4, 3⟩ := by
   refine ⟨by decide, by decide⟩
 
+/-! ### The recorder against an independent specification -/
+
+/-- **refines_ledger.** After any op list the recorder (maps of shared records, swap, merge)
+shows exactly what the ledger (`Model/BillStat.lean`: a counter of owed queries and the data of
+the most recent query per device, no maps, no merge) holds: the pending table — including
+which devices are absent from it —, the batch in flight, the delivered totals and every report
+the backend has acknowledged so far. -/
+theorem refines_ledger (ops : List Op) :
+    Refines (runSer St.init ops) (Ledger.init.run ops) :=
+  (refines_runSer St.init Ledger.init ops refines_init ledgerInv_init).1
+
+example : (Ledger.init.run exOps).owed 1 = 1 ∧ (Ledger.init.run exOps).paid 0 = 3 ∧
+    (Ledger.init.run exOps).reports.length = 1 ∧ (Ledger.init.run exOps).flying.isNone = true := by
+  decide
+
+/-- **pending_exact.** The pending table is determined by the op list alone: a device is
+pending iff it has queries that are neither delivered nor in flight, with exactly that count
+and with the data of its most recent query.  (No zero-count entries, no missing entries.) -/
+theorem pending_exact (ops : List Op) (d : Dev) :
+    (runSer St.init ops).pending d =
+      view (countRec d ops - (runSer St.init ops).delivered d - sumIn (runSer St.init ops).inflight d)
+        (lastRec d ops) := by
+  have hc := conservation_serialised ops d
+  cases hp : (runSer St.init ops).pending d with
+  | none =>
+    have : cnt (runSer St.init ops).pending d = 0 := by simp [cnt, hp]
+    have h0 : countRec d ops - (runSer St.init ops).delivered d
+        - sumIn (runSer St.init ops).inflight d = 0 := by omega
+    rw [h0]; simp
+  | some r =>
+    have hm := (latest_meta ops).2.1 d r hp
+    have hn : cnt (runSer St.init ops).pending d = r.n := by simp [cnt, hp]
+    have hpos := pending_pos ops d r hp
+    symm
+    rw [view_some_iff]
+    exact ⟨hm, by omega, by omega⟩
+
+example : (runSer St.init (exOps.take 6)).pending 0 = view 3 (some (exMeta 4)) := by decide
+
+/-- **successful_upload_reports.** Take any history `pre` after which no upload is in flight,
+start an upload, let any records `mid` race with it, and let it succeed.  Then exactly one
+report is added; for every device it is absent iff the device had no undelivered query at the
+cut, and otherwise carries exactly the number of queries recorded before the cut and not yet
+delivered, with the time/country/ASN/protocol of the most recent query before the cut (racing
+records change nothing in it); afterwards everything recorded before the cut is delivered. -/
+theorem successful_upload_reports (pre mid : List Op) (hq : (runSer St.init pre).inflight = [])
+    (hm : RecordsOnly mid) :
+    ∃ report : Recs,
+      (runSer St.init (pre ++ .begin :: (mid ++ [.endOk 0]))).log =
+        (runSer St.init pre).log ++ [report] ∧
+      (∀ d, report d =
+        view (countRec d pre - (runSer St.init pre).delivered d) (lastRec d pre)) ∧
+      (∀ d, (runSer St.init (pre ++ .begin :: (mid ++ [.endOk 0]))).delivered d = countRec d pre) := by
+  obtain ⟨bi, bd, bl⟩ := begin_quiescent (runSer St.init pre) hq
+  obtain ⟨hi, hd, hl⟩ := records_frame (stepSer (runSer St.init pre) .begin) mid hm
+  obtain ⟨el, ed, _⟩ := endOk_single (runSer (stepSer (runSer St.init pre) .begin) mid)
+    ⟨(runSer St.init pre).pending, (runSer St.init pre).last⟩ (by rw [hi, bi])
+  refine ⟨(runSer St.init pre).pending, ?_, ?_, ?_⟩
+  · rw [run_upload_shape, el, hl, bl]
+  · intro d
+    have := pending_exact pre d
+    rw [hq] at this
+    simpa using this
+  · intro d
+    have hc := conservation_serialised pre d
+    rw [hq] at hc
+    simp only [sumIn_nil] at hc
+    rw [run_upload_shape, ed d, hd, bd]
+    omega
+
+example : (runSer St.init (exOps.take 6)).inflight = [] ∧ RecordsOnly [Op.record 1 (exMeta 5)] := by
+  refine ⟨by decide, ?_⟩
+  intro o ho
+  simp at ho
+  exact ⟨1, exMeta 5, ho⟩
+
+/-- **failed_upload_returns.** The same history, but the upload fails (with any error): no
+report is added, nothing is delivered, and every device is pending again with all its
+undelivered queries — those of the failed batch and those that raced with it — and with the
+data of its most recent query, raced ones included. -/
+theorem failed_upload_returns (pre mid : List Op) (hq : (runSer St.init pre).inflight = [])
+    (hm : RecordsOnly mid) (d : Dev) :
+    (runSer St.init (pre ++ .begin :: (mid ++ [.endFail 0]))).log = (runSer St.init pre).log ∧
+    (runSer St.init (pre ++ .begin :: (mid ++ [.endFail 0]))).delivered d =
+      (runSer St.init pre).delivered d ∧
+    (runSer St.init (pre ++ .begin :: (mid ++ [.endFail 0]))).inflight = [] ∧
+    (runSer St.init (pre ++ .begin :: (mid ++ [.endFail 0]))).pending d =
+      view (countRec d (pre ++ mid) - (runSer St.init pre).delivered d) (lastRec d (pre ++ mid)) := by
+  obtain ⟨bi, bd, bl⟩ := begin_quiescent (runSer St.init pre) hq
+  obtain ⟨hi, hd, hl⟩ := records_frame (stepSer (runSer St.init pre) .begin) mid hm
+  obtain ⟨el, ed, ei⟩ := endFail_single (runSer (stepSer (runSer St.init pre) .begin) mid)
+    ⟨(runSer St.init pre).pending, (runSer St.init pre).last⟩ (by rw [hi, bi])
+  have hlog : (runSer St.init (pre ++ .begin :: (mid ++ [.endFail 0]))).log = (runSer St.init pre).log := by
+    rw [run_upload_shape, el, hl, bl]
+  have hdel : (runSer St.init (pre ++ .begin :: (mid ++ [.endFail 0]))).delivered d =
+      (runSer St.init pre).delivered d := by
+    rw [run_upload_shape, ed, hd, bd]
+  have hinf : (runSer St.init (pre ++ .begin :: (mid ++ [.endFail 0]))).inflight = [] := by
+    rw [run_upload_shape, ei]
+  refine ⟨hlog, hdel, hinf, ?_⟩
+  have hp := pending_exact (pre ++ .begin :: (mid ++ [.endFail 0])) d
+  rw [hinf, hdel] at hp
+  have hcount : countRec d (pre ++ .begin :: (mid ++ [.endFail 0])) = countRec d (pre ++ mid) := by
+    have : pre ++ .begin :: (mid ++ [.endFail 0]) = pre ++ ([.begin] ++ (mid ++ [.endFail 0])) := by simp
+    rw [this]
+    simp [countRec_append, countRec]
+  have hlast : lastRec d (pre ++ .begin :: (mid ++ [.endFail 0])) = lastRec d (pre ++ mid) := by
+    have : pre ++ .begin :: (mid ++ [.endFail 0]) = pre ++ ([.begin] ++ (mid ++ [.endFail 0])) := by simp
+    rw [this]
+    simp [lastRec_append, lastRec]
+  rw [hcount, hlast] at hp
+  simpa using hp
+
+/-! ### What goes on the wire (`backendpb.BillStat.Upload`, `recordToProtobuf`) -/
+
+/-- **int32_tracks_nat.** `Record.Queries` is an `int32` that `Record` increments and
+`remergeRecords` adds to with wrapping arithmetic: whatever the values, the field holds
+`wrap32` of the natural number the model holds. -/
+theorem int32_tracks_nat (a b : Nat) :
+    wrap32 (wrap32 a + 1) = wrap32 ((a + 1 : Nat)) ∧
+    wrap32 (wrap32 a + wrap32 b) = wrap32 ((a + b : Nat)) ∧ wrap32 (1 : Nat) = 1 := by
+  unfold wrap32
+  refine ⟨by omega, by omega, by decide⟩
+
+/-- **wire_queries_exact.** `uint32(r.Queries)` of the wrapped `int32` is the true count modulo
+2³²: the count on the wire is exact for fewer than 2³² (not only 2³¹) outstanding queries of a
+device — the negative intermediate values of the `int32` are harmless. -/
+theorem wire_queries_exact (d : Dev) (m : Meta) (n : Nat) :
+    (toWire d ⟨m, n⟩).queries = n % 4294967296 ∧
+    (n < 4294967296 → (toWire d ⟨m, n⟩).queries = n) := by
+  simp only [toWire, toU32, wrap32]
+  refine ⟨by omega, fun h => by omega⟩
+
+/-- At 2³² outstanding queries of one device the count on the wire wraps to 0. -/
+theorem wire_wraps_counterexample : (toWire 0 ⟨exMeta 1, 4294967296⟩).queries = 0 := by
+  simp [toWire, toU32, wrap32]
+
+example : (toWire 0 ⟨exMeta 1, 2147483648⟩).queries = 2147483648 ∧ wrap32 (2147483648 : Nat) < 0 := by
+  simp [toWire, toU32, wrap32]
+
+/-- **wire_time_exact.** `timestamppb.New` loses nothing of the time of the most recent query,
+also before 1970: seconds·10⁹ + nanos is the time and `0 ≤ nanos < 10⁹`. -/
+theorem wire_time_exact (d : Dev) (r : Rec) :
+    (toWire d r).secs * 1000000000 + (toWire d r).nanos = r.m.time ∧
+    0 ≤ (toWire d r).nanos ∧ (toWire d r).nanos < 1000000000 ∧
+    (toWire d r).dev = d ∧ (toWire d r).ctry = r.m.ctry ∧ (toWire d r).asn = r.m.asn ∧
+    (toWire d r).proto = r.m.proto := by
+  simp only [toWire]
+  refine ⟨by omega, by omega, by omega, trivial, trivial, trivial, trivial⟩
+
+/-- **upload_ok_complete.** Whatever the backend does: if `Upload` returns nil, every record of
+the batch was sent, once, in order — a partial stream is never reported as a success. -/
+theorem upload_ok_complete (b : Backend) (batch : List Wire) (h : (upload b batch).1 = true) :
+    (upload b batch).2 = batch := by
+  unfold upload at h ⊢
+  by_cases he : batch.isEmpty
+  · cases batch with
+    | nil => simp
+    | cons w ws => simp at he
+  · simp only [he, Bool.false_eq_true, if_false] at h ⊢
+    by_cases ho : b.openFails
+    · simp [ho] at h
+    · simp only [ho, Bool.false_eq_true, if_false] at h ⊢
+      by_cases hs : (sendAll b 0 batch).1
+      · simp only [hs, Bool.not_true, Bool.false_eq_true, if_false] at h ⊢
+        cases hc : b.close <;> simp [hc] at h ⊢ <;> exact sendAll_ok b 0 batch hs
+      · simp [hs] at h
+
+/-- **upload_ok_iff.** `Upload` returns nil exactly when the batch is empty (no stream is
+opened), or the stream opens, no `Send` fails and `CloseAndRecv` does not return an error other
+than `io.EOF`. -/
+theorem upload_ok_iff (b : Backend) (batch : List Wire) :
+    (upload b batch).1 = true ↔
+      batch = [] ∨ (b.openFails = false ∧ (∀ j, j < batch.length → b.sendFailsAt ≠ some j) ∧
+        b.close ≠ .err) := by
+  unfold upload
+  cases batch with
+  | nil => simp
+  | cons w ws =>
+    simp only [List.isEmpty_cons, Bool.false_eq_true, if_false, reduceCtorEq, false_or]
+    by_cases ho : b.openFails
+    · simp [ho]
+    · have hs := sendAll_ok_iff b 0 (w :: ws)
+      simp only [Nat.zero_add] at hs
+      by_cases hsend : (sendAll b 0 (w :: ws)).1
+      · have := hs.mp hsend
+        cases hc : b.close <;> simp [ho, hsend] <;> exact this
+      · have : ¬ ∀ j, j < (w :: ws).length → b.sendFailsAt ≠ some j := fun h => hsend (hs.mpr h)
+        simp [ho, hsend]
+        intro h
+        exact absurd h this
+
+def exBatch : List Wire := [toWire 0 ⟨exMeta 1, 3⟩, toWire 1 ⟨exMeta 2, 1⟩]
+
+example : upload ⟨false, none, .ack⟩ exBatch = (true, exBatch) ∧
+    (upload ⟨false, some 1, .ack⟩ exBatch).1 = false ∧ (upload ⟨false, none, .err⟩ exBatch).1 = false ∧
+    (upload ⟨true, none, .ack⟩ exBatch).1 = false ∧ upload ⟨true, some 0, .err⟩ [] = (true, []) := by
+  decide
+
 /-- The latest-meta clause as a statement about a recorder whose refreshes may overlap. -/
 def LatestMetaUnserialised : Prop :=
   ∀ (ops : List Op) (d : Dev) (r : Rec), (run St.init ops).pending d = some r → lastRec d ops = some r.m
@@ -171,5 +370,15 @@ example : countRec 0 exOps < 2 ^ 31 := by decide
 #print axioms reported_meta
 #print axioms stale_meta_counterexample
 #print axioms no_overflow
+#print axioms refines_ledger
+#print axioms pending_exact
+#print axioms successful_upload_reports
+#print axioms failed_upload_returns
+#print axioms int32_tracks_nat
+#print axioms wire_queries_exact
+#print axioms wire_wraps_counterexample
+#print axioms wire_time_exact
+#print axioms upload_ok_complete
+#print axioms upload_ok_iff
 
 end Agd.BillStat
